@@ -335,9 +335,9 @@ func (fx *FnExec) enterLoop(b *ssa.BasicBlock, li *loopInfo, st *blockState) {
 		fx.regs[phi] = entryPhi[phi]
 	}
 	for k, inv := range invs {
-		t, err := fx.evalContract(inv, &evalEnv{fx: fx, heap: st.heap, oldHeap: fx.heap0})
+		t, err := fx.evalContract(inv, &evalEnv{fx: fx, heap: st.heap, oldHeap: fx.heap0, loop: b})
 		if err != nil {
-			fx.outside = append(fx.outside, fmt.Sprintf("loop %d invariant %q: %v", li.ordinal, inv.Text, err))
+			fx.outside = append(fx.outside, fmt.Sprintf("loop %d invariant %q: %v", li.ordinal, truncate(inv.Text, 80), err))
 			continue
 		}
 		o := fx.oblige("inv-entry", t, firstInstr(b), fmt.Sprintf("loop %d invariant #%d holds on entry: %s", li.ordinal, k+1, inv.Text))
@@ -388,14 +388,14 @@ func (fx *FnExec) enterLoop(b *ssa.BasicBlock, li *loopInfo, st *blockState) {
 	}
 	// 3. assume invariants for an arbitrary iteration
 	for _, inv := range invs {
-		t, err := fx.evalContract(inv, &evalEnv{fx: fx, heap: st.heap, oldHeap: fx.heap0})
+		t, err := fx.evalContract(inv, &evalEnv{fx: fx, heap: st.heap, oldHeap: fx.heap0, loop: b})
 		if err == nil {
 			fx.assume(t)
 		}
 	}
 	// decreases: remember the measure at the head
 	if d := fx.loopDecreases(li); d != nil {
-		t, err := fx.evalContract(d, &evalEnv{fx: fx, heap: st.heap, oldHeap: fx.heap0})
+		t, err := fx.evalContract(d, &evalEnv{fx: fx, heap: st.heap, oldHeap: fx.heap0, loop: b})
 		if err == nil {
 			li.measure = fx.define(fmt.Sprintf("measure_l%d", li.ordinal), "Int", t)
 			li.hasDec = true
@@ -490,7 +490,7 @@ func (fx *FnExec) closeBackEdge(p, head *ssa.BasicBlock, cond string) {
 		fx.regs[phi] = news[i]
 	}
 	for k, inv := range invs {
-		t, err := fx.evalContract(inv, &evalEnv{fx: fx, heap: fx.cur.heap, oldHeap: fx.heap0})
+		t, err := fx.evalContract(inv, &evalEnv{fx: fx, heap: fx.cur.heap, oldHeap: fx.heap0, loop: head})
 		if err != nil {
 			continue
 		}
@@ -498,7 +498,7 @@ func (fx *FnExec) closeBackEdge(p, head *ssa.BasicBlock, cond string) {
 		o.Props = inv.Props
 	}
 	if dec != nil && li.hasDec {
-		t, err := fx.evalContract(dec, &evalEnv{fx: fx, heap: fx.cur.heap, oldHeap: fx.heap0})
+		t, err := fx.evalContract(dec, &evalEnv{fx: fx, heap: fx.cur.heap, oldHeap: fx.heap0, loop: head})
 		if err == nil {
 			o := fx.oblige("dec", "(and (< "+t+" "+li.measure+") (>= "+li.measure+" 0))", lastInstr(p), fmt.Sprintf("loop %d measure decreases and is bounded: %s", li.ordinal, dec.Text))
 			o.Props = dec.Props
@@ -677,6 +677,9 @@ func (fx *FnExec) execInstr(in ssa.Instruction) {
 	case *ssa.If:
 		c := fx.term(fx.val(x.Cond))
 		b := x.Block()
+		if fx.recordBranches {
+			fx.branches = append(fx.branches, branchRec{in: x, pc: fx.cur.pc, cond: c})
+		}
 		fx.flow(b, b.Succs[0], and(fx.cur.pc, c))
 		fx.flow(b, b.Succs[1], and(fx.cur.pc, not(c)))
 	case *ssa.Jump:
@@ -1377,6 +1380,9 @@ func (fx *FnExec) execReturn(x *ssa.Return) {
 	}
 	if fx.onReturn != nil {
 		fx.onReturn(fx, x, vals)
+	}
+	if fx.recordBranches {
+		fx.returns = append(fx.returns, retRec{in: x, pc: fx.cur.pc, vals: vals})
 	}
 	if fx.C != nil && fx.C.Fresh && !fx.C.Assumed && len(vals) > 0 {
 		o := fx.oblige("fresh", "(> "+vals[0].S+" "+fx.allocBase()+")", x, "result is an object allocated (or taken from a pool) by this activation")
